@@ -252,7 +252,7 @@ func runDavTasks(plan *Plan, tasks []TaskPlan, log *Log) (*concResult, string) {
 		h = &caldav.Handler{Backend: calS}
 	}
 	time.Sleep(time.Until(epoch.Add(time.Hour)))
-	tr := &concTransport{h: h, calibrate: plan.Calibrate}
+	tr := &concTransport{h: h, calibrate: plan.Calibrate, redirected: plan.Config.Redirected}
 	cs, err := newClientSet(&http.Client{Transport: tr}, "http://dav.test/")
 	if err != nil {
 		return nil, err.Error()
@@ -381,6 +381,7 @@ func GenC18ConcDav(seed uint64, tier string) *Plan {
 	r := rt.NewRand(seed)
 	p := &Plan{Format: 1, Property: "C18", Profile: "concurrent-dav", RunSeed: seed, Config: Config{RootName: RootName}}
 	p.Config.Server = rt.Pick(r, []string{"caldav", "carddav"})
+	p.Config.Redirected = r.Chance(0.3)
 	n := 2 + r.Intn(5)
 	for id := 0; id < n; id++ {
 		tp := TaskPlan{ID: id}
